@@ -59,9 +59,29 @@ func mkMakeFuncDep(tag int) any {
 }
 
 type funcKindCase struct {
-	name string
-	fns  func() []any // function values, the i-th must produce Tag i
-	dep  bool         // register FKDep too
+	name  string
+	fns   func() []any // function values, the i-th must produce Tag i
+	dep   bool         // register FKDep too
+	slice bool         // register []*FKDep too (what a variadic constructor's last parameter asks for)
+}
+
+func newFKDepSlice() []*FKDep { return []*FKDep{{N: 99}} }
+
+// variadic twins of the shared-code kinds: reflect calls them through another door (CallSlice)
+//
+//go:noinline
+func mkClosureVariadic(tag int) func(...*FKDep) *FK {
+	return func(ds ...*FKDep) *FK { return &FK{Tag: tag + len(ds) - 1} }
+}
+
+type fkRecvVariadic struct{ tag int }
+
+func (r *fkRecvVariadic) New(ds ...*FKDep) *FK { return &FK{Tag: r.tag + len(ds) - 1} }
+
+func mkMakeFuncVariadic(tag int) any {
+	return reflect.MakeFunc(reflect.TypeOf(func(...*FKDep) *FK { return nil }), func(args []reflect.Value) []reflect.Value {
+		return []reflect.Value{reflect.ValueOf(&FK{Tag: tag + args[0].Len() - 1})}
+	}).Interface()
 }
 
 func (fk funcKindCase) run() ([]Finding, int) {
@@ -73,6 +93,12 @@ func (fk funcKindCase) run() ([]Finding, int) {
 		if fk.dep {
 			if err := coll.AddSingleton(newFKDep); err != nil {
 				fs = append(fs, Finding{"funckind-registration", fk.name, fmt.Sprintf("registering the dependency failed: %v", err)})
+				continue
+			}
+		}
+		if fk.slice {
+			if err := coll.AddSingleton(newFKDepSlice); err != nil {
+				fs = append(fs, Finding{"funckind-registration", fk.name, fmt.Sprintf("registering the slice dependency failed: %v", err)})
 				continue
 			}
 		}
@@ -160,6 +186,11 @@ var funcKindCases = []funcKindCase{
 	{name: "generic-instantiations", fns: func() []any { return []any{fkGeneric[fkT0], fkGeneric[fkT1], fkGeneric[fkT2]} }},
 	{name: "makefunc-same-signature", fns: func() []any { return []any{mkMakeFunc(0), mkMakeFunc(1), mkMakeFunc(2)} }},
 	{name: "makefunc-different-signatures", dep: true, fns: func() []any { return []any{mkMakeFunc(0), mkMakeFuncDep(1), mkMakeFunc(2)} }},
+	{name: "variadic-closures-of-one-literal", slice: true, fns: func() []any { return []any{mkClosureVariadic(0), mkClosureVariadic(1), mkClosureVariadic(2)} }},
+	{name: "variadic-method-values", slice: true, fns: func() []any {
+		return []any{(&fkRecvVariadic{0}).New, (&fkRecvVariadic{1}).New, (&fkRecvVariadic{2}).New}
+	}},
+	{name: "variadic-makefunc", slice: true, fns: func() []any { return []any{mkMakeFuncVariadic(0), mkMakeFuncVariadic(1), mkMakeFuncVariadic(2)} }},
 	{name: "closure-then-makefunc-mixed", dep: true, fns: func() []any { return []any{mkClosure(0), mkMakeFuncDep(1), (&fkRecv{2}).New, fkTop0ish(3)} }},
 }
 
